@@ -137,7 +137,7 @@ fn run(args: &[String]) -> i32 {
                             _ => false,
                         }
                     };
-                    let mut c0 = c.clone();
+                    let mut c0 = mon.focus(&c, &f);
                     if mon.shrink_text() {
                         c0.ast = None;
                     }
@@ -152,6 +152,8 @@ fn run(args: &[String]) -> i32 {
                     Outcome::Violated(fs2) => fs2.into_iter().find(|g| g.kind == kind).unwrap_or(f.clone()),
                     _ => f.clone(),
                 };
+                let mut min = min;
+                mon.annotate(&mut min);
                 let facts = facts_of(&min, &f2);
                 rep.violations.push(Violation { finding: f2, original: c, minimized: min, shrink_complete: complete, facts });
             }
